@@ -37,6 +37,7 @@ RdrStep(steps, i) ==
   IN F(st.res[1] = st.fresh[1] /\ (st.res[1] = 1 => st.res[2] = st.fresh[2]), "C15", "result_differs_from_fresh_reader_" \o tag)
      \cup F(st.tree = st.freshtree, "C15", "tree_differs_from_fresh_reader_" \o tag)
      \cup F(\A k \in 1..Len(st.recheck) : st.recheck[k][2] = steps[st.recheck[k][1]].tree, "C15", "earlier_result_changed_" \o tag)
+     \cup F(\A k \in 1..Len(st.recheck) : st.recheck[k][2] = steps[st.recheck[k][1]].tree, "C16", "returned_tree_changed_by_later_calls_or_overwrites_" \o tag)
      \cup F(st.res[3] = 0 /\ st.fresh[3] = 0, "C10", "panic")
      \cup specPart
 
@@ -46,7 +47,7 @@ Clauses(e) ==
 
 TraceInit == l = 1
 TraceNext == /\ l <= Len(Trace)
-             /\ Report(l, 0, Clauses(Trace[l]))
+             /\ Report(l, 0, IF IsPanic(Trace[l]) THEN PanicFail ELSE Clauses(Trace[l]))
              /\ l' = l + 1
 TraceSpec == TraceInit /\ [][TraceNext]_l
 Finished == l = Len(Trace) + 1 => PrintT(<<"TRACE-CONSUMED", Len(Trace)>>)
